@@ -9,6 +9,7 @@ mod poly;
 mod pred;
 mod probe;
 mod sched;
+mod session;
 mod tess;
 
 fn main() {
@@ -22,6 +23,7 @@ fn main() {
         "replay-cells" => latt::main_replay(rest),
         "tess" => tess::main_tess(rest),
         "sched" => sched::main_sched(rest),
+        "session" => session::main_session(rest),
         "nn" => nn::main_nn(rest),
         "clip" => clip::main_clip(rest),
         "pred" => pred::main_pred(rest),
